@@ -219,6 +219,38 @@ def unit_invariant(ctx):
     ctx.canary("lemma.invariant", [Inv(ph, Bs, Os, rows), quiescent])
 
 
+
+def unit_lifetime(ctx):
+    """Ownership / lifetime contract of the claim buffer: it is deleted only by the constructor (stale buffer of a dead session, before the
+    new one is created) and by the handler the constructor registers with atexit (interpreter exit of the creating session).  In
+    particular no finalizer (__del__, weakref.finalize / weakref callbacks) is attached to aggregator objects: pickled copies in pool
+    workers and rebound variables are collected long before the session ends, and a finalizer would delete the LIVE buffer."""
+    import ast
+    eng = ctx.engine()
+    eng.load_module("panoptica.panoptica_aggregator")
+    mod = eng.modules["panoptica.panoptica_aggregator"]
+    cls = eng.resolve(PA + "Panoptica_Aggregator")
+    tree = mod.tree
+    fn = PA + "Panoptica_Aggregator.__init__"
+    has_del = any(isinstance(c, ClassInfo) and ("__del__" in c.attrs) for c in cls.mro() if isinstance(c, ClassInfo))
+    finalizers = [ast.unparse(n.func) for n in ast.walk(tree) if isinstance(n, ast.Call) and ast.unparse(n.func) in ("weakref.finalize", "finalize", "weakref.ref", "weakref.proxy")]
+    ctx.oblige("panoptica_aggregator.Panoptica_Aggregator/lifetime(no finalizer deletes files: no __del__, no weakref.finalize / weakref callbacks)", [],
+               z3.BoolVal(not has_del and not finalizers), func=fn, replay="c16.lifetime", info={"structural": True, "del": has_del, "finalizers": str(finalizers)})
+    # removal sites of files: which functions call os.remove / Path.unlink
+    removers = []
+    for node in ast.walk(tree):
+        if isinstance(node, (ast.FunctionDef, ast.AsyncFunctionDef)):
+            for n in ast.walk(node):
+                if isinstance(n, ast.Call) and ast.unparse(n.func).split(".")[-1] in ("remove", "unlink", "rmtree", "rename", "replace", "truncate"):
+                    removers.append(node.name)
+    init, _ = cls.lookup("__init__")
+    registered = [ast.unparse(n.args[0]) for n in ast.walk(init.node) if isinstance(n, ast.Call) and ast.unparse(n.func) == "atexit.register" and n.args]
+    handler_names = {r.split(".")[-1] for r in registered}
+    ok_sites = set(removers) <= ({"__init__"} | handler_names) and len(registered) == 1
+    ctx.oblige("panoptica_aggregator.Panoptica_Aggregator/lifetime(files are removed only in the constructor and in the one handler registered with atexit)", [],
+               z3.BoolVal(bool(ok_sites)), func=fn, replay="c16.lifetime", info={"structural": True, "removal_sites": str(sorted(set(removers))), "atexit": str(registered)})
+
+
 def build(ctx):
     ctx.trust("ASSUMED: multiprocessing.Lock gives mutual exclusion between threads and between forked processes sharing the module-level lock",
               "ASSUMED: a row appended and the file closed inside a critical section is visible to the next holder of the lock",
@@ -227,8 +259,11 @@ def build(ctx):
     ctx.unit("lock_discipline", lambda: unit_lock_discipline(ctx))
     ctx.unit("sections", lambda: unit_sections(ctx))
     ctx.unit("invariant", lambda: unit_invariant(ctx))
+    ctx.unit("lifetime", lambda: unit_lifetime(ctx))
     ctx.add_bounded("c16-schedules", "c16.bounded")
 
 
 def concretise(ctx, o, r):
+    if o.replay == "c16.lifetime":
+        return {}
     return {"obligation": o.name}
